@@ -74,6 +74,8 @@ pub struct Acc {
     pub evaluations: u64,
     pub counters: HashMap<String, u64>,
     pub distinct: HashSet<u64>,
+    /// named sets whose sizes are reported as counters "distinct:<name>"
+    pub sets: HashMap<&'static str, HashSet<u64>>,
     pub samples: Vec<Value>,
     pub violations: BTreeMap<String, Violation>,
     pub assumptions: Vec<String>,
@@ -99,6 +101,9 @@ impl Acc {
     }
     pub fn set(&mut self, k: &str, n: u64) {
         self.counters.insert(k.to_string(), n);
+    }
+    pub fn set_insert(&mut self, name: &'static str, h: u64) {
+        self.sets.entry(name).or_default().insert(h);
     }
     pub fn sample(&mut self, v: Value) {
         if self.samples.len() < MAX_SAMPLES {
@@ -144,6 +149,9 @@ impl Acc {
             *self.counters.entry(k).or_insert(0) += v;
         }
         self.distinct.extend(other.distinct);
+        for (k, v) in other.sets {
+            self.sets.entry(k).or_default().extend(v);
+        }
         for s in other.samples {
             self.sample(s);
         }
@@ -171,6 +179,9 @@ impl Acc {
             .collect();
         for (k, c) in sigs {
             self.counters.insert(format!("sig:{}", k), c);
+        }
+        for (k, v) in self.sets.iter() {
+            self.counters.insert(format!("distinct:{}", k), v.len() as u64);
         }
         let counters: BTreeMap<String, u64> = self.counters.into_iter().collect();
         let violations: Vec<Value> = self
